@@ -793,7 +793,12 @@ class InterpBuiltins:
         v = args[0]
         return self.bool_value(z3.Not(self.old_heap.get('alloc', arr(Ref, B))[v.ref]))
 
+    def _effects_guard(self):
+        if getattr(self, 'callee_clause', 0):
+            raise EffectsInCalleeClause()
+
     def bi_effects(self, args, kw, line):
+        self._effects_guard()
         return ConstSeq([ConstSeq([nme] + list(a), 'tuple') for nme, a in self.effects])
 
     def _loop_markers(self, names):
@@ -805,6 +810,7 @@ class InterpBuiltins:
         """no_effect() : the ghost effect log is empty;  no_effect('send_start_process', ...) : none of these.
         Effects declared for the other iterations of a symbolic loop (loop<K>_effects) count as 'possibly emitted';
         after a loop whose iterations emit UNDECLARED effects the answer is unknown."""
+        self._effects_guard()
         if getattr(self, 'effects_unknown', None):
             # iterations of an earlier loop emitted effects this path's log does not contain: the answer is unknown
             return SV(self.run.fresh('no_effect_unknown', B), BOOL)
@@ -823,12 +829,14 @@ class InterpBuiltins:
                               f'not contain them (state the per-iteration effects in loop<K>_iter)')
 
     def bi_count_effects(self, args, kw, line):
+        self._effects_guard()
         self._effects_known()
         if self._loop_markers(args):
             raise Unsupported('count_effects of an effect emitted inside a loop over a symbolic collection')
         return sum(1 for nme, _ in self.effects[len(self.effects_base):] if nme in args)
 
     def bi_effect_at(self, args, kw, line):
+        self._effects_guard()
         self._effects_known()
         nme, k = args[0], args[1] if len(args) > 1 else 0
         if self._loop_markers((nme,)):
